@@ -166,28 +166,41 @@ def suite_config(ctx):
                         'required': 'refused: only 2006, 2013 and 2020 are editions'})
             elif how != 'init' and c.config['standard_version'] != 2013:
                 s.fail({'site': 'Client.' + how, 'input': repr(v), 'observed': 'edition in force %r after the refusal' % (c.config['standard_version'],), 'required': '2013 (unchanged)'})
-    # a refused change of several keys leaves every key as it was, wherever the bad edition stands among the keys
+    # a change of several keys is applied completely or not at all, wherever the edition stands among the keys
+    def iv(x):
+        return int(x) if not isinstance(x, bool) else (1 if x else 0)
     for _ in range(ctx.n(200, 3000)):
         conn = cl.stub.StubConn(cl.CLOCK)
-        c = Client(conn, config={'standard_version': rng.choice([2006, 2013, 2020])})
+        c = Client(conn, config={'standard_version': rng.choice([2006, 2013, 2020]), 'p2_timeout': 1, 'p2_star_timeout': 5, 'request_timeout': 8})
         before = dict(c.config)
         keys = [('p2_timeout', 3), ('p2_star_timeout', 7), ('request_timeout', 9), ('tolerate_zero_padding', not c.config['tolerate_zero_padding']),
                 ('use_server_timing', not c.config['use_server_timing']), ('exception_on_negative_response', not c.config['exception_on_negative_response'])]
         rng.shuffle(keys)
         keys = keys[:rng.randrange(1, 5)]
-        bad = rng.choice([2012, 0, 2021, 2007])
+        ed = rng.choice([2012, 0, 2021, 2007, 2006, 2013, 2020])
         pos = rng.randrange(len(keys) + 1)
-        items = keys[:pos] + [('standard_version', bad)] + keys[pos:]
+        items = keys[:pos] + [('standard_version', ed)] + keys[pos:]
+        if rng.random() < 0.2:
+            items = keys                                     # the edition is not mentioned: the current one stays
         raised = False
         try:
             c.set_configs(dict(items))
         except ConfigError:
             raised = True
         s.evaluations += 1
+        names = sorted(set(k for k, _ in items) | {'standard_version'})
+        line = 'ed.cfgs c=%s d=%s' % (','.join('%s:%d' % (k, iv(before[k])) for k in names), ','.join('%s:%d' % (k, iv(v)) for k, v in items))
+        lines.append(line)
+        impl.append('raised=%s %s' % (core.b01(raised), ','.join('%s:%d' % (k, iv(c.config[k])) for k in names)))
+        s.distinct.add(line)
         changed = {k: c.config[k] for k in before if c.config.get(k) != before[k]}
-        if not raised or changed:
+        valid = dict(items).get('standard_version', before['standard_version']) in (2006, 2013, 2020)
+        if not valid and (not raised or changed):
             s.fail({'site': 'Client.set_configs', 'input': 'set_configs(%s)' % ', '.join('%s=%r' % kv for kv in items), 'observed': 'raised=%s, keys changed: %s' % (raised, changed),
                     'required': 'ConfigError and the previous configuration in force for every key'})
+        if valid and (raised or any(c.config[k] != v for k, v in items)):
+            s.fail({'site': 'Client.set_configs', 'input': 'set_configs(%s)' % ', '.join('%s=%r' % kv for kv in items), 'observed': 'raised=%s, config %s' % (raised, {k: c.config[k] for k, _ in items}),
+                    'required': 'accepted, every key of the call in force'})
     core.compare(s, lines, core.drv_batch(lines), impl)
     s.sample({'line': lines[-1], 'impl': impl[-1]})
     return s
